@@ -10,7 +10,7 @@ package jet
 
 // Everything the interpreter may change while executing template code. The parsed templates (all
 // node types, Template, Set) are deliberately absent: executing never modifies them (C10).
-//@ modset Interp := ghost CM, ghost NL, ghost Held, type Runtime.scope, type Runtime.context, type Runtime.content, type escapeeWriter.Writer, mapsof VarMap, ghost T, type sliceRanger.i, type sliceRanger.v, type mapRanger.iter, type mapRanger.hasMore, type chanRanger.v, type intsRanger.i, type intsRanger.val, mapsof map[reflect.Type]map[string][]int, global cachedStructsFieldIndex
+//@ modset Interp := ghost CM, ghost NL, type Runtime.scope, type Runtime.context, type Runtime.content, type escapeeWriter.Writer, mapsof VarMap, ghost T, type sliceRanger.i, type sliceRanger.v, type mapRanger.iter, type mapRanger.hasMore, type chanRanger.v, type intsRanger.i, type intsRanger.val, mapsof map[reflect.Type]map[string][]int, global cachedStructsFieldIndex
 
 //@ pred RtOK(st *Runtime) := st != nil && st.scope != nil && st.escapeeWriter != nil && st.escapeeWriter.set != nil && st.escapeeWriter.set.gmx != nil && SetOK(st.escapeeWriter.set)
 // S(st): the interpreter state that enclosing constructs must leave as they found it.
